@@ -44,9 +44,32 @@ fn cursor_obs<T: DNSIterable + TypedIterable>(it: &T, ttl: Option<u32>) -> Strin
     )
 }
 
+/// observation of a cursor over the EDNS options: offsets, option code (as "type"), option length (as "class"),
+/// and the option as `raw()` / `packet()` expose it
+fn edns_obs(it: &EdnsIterator) -> String {
+    if it.is_tombstone() {
+        return "{\"tomb\":true,\"off\":0,\"name_end\":0,\"next\":0,\"raw\":[],\"name\":[],\"type\":0,\"class\":0,\"ttl\":[]}".to_string();
+    }
+    let raw = it.raw();
+    let off = it.offset().unwrap();
+    let p = it.packet();
+    let code = ((p[off] as u16) << 8) | p[off + 1] as u16;
+    let len = ((p[off + 2] as u16) << 8) | p[off + 3] as u16;
+    format!(
+        "{{\"tomb\":false,\"off\":{},\"name_end\":{},\"next\":{},\"raw\":{},\"name\":[],\"type\":{},\"class\":{},\"ttl\":[]}}",
+        raw.offset,
+        raw.name_end,
+        it.offset_next(),
+        jbytes(&raw.packet[raw.offset..it.offset_next().min(raw.packet.len())]),
+        code,
+        len
+    )
+}
+
 enum Cur<'a> {
     Q(QuestionIterator<'a>),
     R(ResponseIterator<'a>),
+    E(EdnsIterator<'a>),
 }
 
 impl<'a> Cur<'a> {
@@ -57,12 +80,14 @@ impl<'a> Cur<'a> {
                 let ttl = if i.is_tombstone() { None } else { Some(i.rr_ttl()) };
                 cursor_obs(i, ttl)
             }
+            Cur::E(i) => edns_obs(i),
         }
     }
     fn pp(&self) -> &ParsedPacket {
         match self {
             Cur::Q(i) => i.parsed_packet(),
             Cur::R(i) => i.parsed_packet(),
+            Cur::E(i) => i.parsed_packet(),
         }
     }
 }
@@ -92,6 +117,7 @@ fn cursor_script(pp: &mut ParsedPacket, o: &Value) -> (String, bool) {
             "Q" => pp.into_iter_question().map(Cur::Q),
             "AN" => pp.into_iter_answer().map(Cur::R),
             "NS" => pp.into_iter_nameservers().map(Cur::R),
+            "E" => pp.into_iter_edns().map(Cur::E),
             _ => {
                 if incl {
                     pp.into_iter_additional_including_opt().map(Cur::R)
@@ -105,6 +131,7 @@ fn cursor_script(pp: &mut ParsedPacket, o: &Value) -> (String, bool) {
             cur = match cur {
                 Some(Cur::Q(i)) => i.next().map(Cur::Q),
                 Some(Cur::R(i)) => (if incl { i.next_including_opt() } else { i.next() }).map(Cur::R),
+                Some(Cur::E(i)) => i.next().map(Cur::E),
                 None => None,
             };
         }
@@ -121,17 +148,20 @@ fn cursor_script(pp: &mut ParsedPacket, o: &Value) -> (String, bool) {
                 "set_raw_name" => match &mut cur {
                     Cur::Q(i) => res_of(i.set_raw_name(&arg)),
                     Cur::R(i) => res_of(i.set_raw_name(&arg)),
+                    Cur::E(_) => ("na".into(), String::new()),
                 },
                 "delete" => match &mut cur {
                     Cur::Q(i) => res_of(i.delete()),
                     Cur::R(i) => res_of(i.delete()),
+                    Cur::E(_) => ("na".into(), String::new()),
                 },
                 "uncompress" => match &mut cur {
                     Cur::Q(i) => res_of(i.uncompress()),
                     Cur::R(i) => res_of(i.uncompress()),
+                    Cur::E(i) => res_of(i.uncompress()),
                 },
                 "set_ttl" => match &mut cur {
-                    Cur::Q(_) => ("na".into(), String::new()),
+                    Cur::Q(_) | Cur::E(_) => ("na".into(), String::new()),
                     Cur::R(i) => {
                         if i.is_tombstone() {
                             ("na".into(), String::new())
@@ -143,7 +173,7 @@ fn cursor_script(pp: &mut ParsedPacket, o: &Value) -> (String, bool) {
                     }
                 },
                 "set_ip" => match &mut cur {
-                    Cur::Q(_) => ("na".into(), String::new()),
+                    Cur::Q(_) | Cur::E(_) => ("na".into(), String::new()),
                     Cur::R(i) => {
                         if i.is_tombstone() {
                             ("na".into(), String::new())
@@ -164,6 +194,7 @@ fn cursor_script(pp: &mut ParsedPacket, o: &Value) -> (String, bool) {
                     let nxt = match cur {
                         Cur::Q(i) => i.next().map(Cur::Q),
                         Cur::R(i) => (if incl { i.next_including_opt() } else { i.next() }).map(Cur::R),
+                        Cur::E(i) => i.next().map(Cur::E),
                     };
                     match nxt {
                         Some(c) => {
@@ -446,17 +477,20 @@ pub fn run_walk(v: &Value) -> Option<String> {
             let hit = match &c {
                 Cur::Q(_) => del_q,
                 Cur::R(i) => del.iter().any(|d| d[..] == i.rr_ttl().to_be_bytes()[..]),
+                Cur::E(_) => false,
             };
             let (mut d1, mut d2) = (("na".to_string(), String::new()), ("na".to_string(), String::new()));
             if hit {
                 d1 = match &mut c {
                     Cur::Q(i) => res_of(i.delete()),
                     Cur::R(i) => res_of(i.delete()),
+                    Cur::E(_) => ("na".to_string(), String::new()),
                 };
                 if twice {
                     d2 = match &mut c {
                         Cur::Q(i) => res_of(i.delete()),
                         Cur::R(i) => res_of(i.delete()),
+                        Cur::E(_) => ("na".to_string(), String::new()),
                     };
                 }
             }
@@ -471,6 +505,7 @@ pub fn run_walk(v: &Value) -> Option<String> {
                 match &c {
                     Cur::Q(i) => i.is_tombstone(),
                     Cur::R(i) => i.is_tombstone(),
+                    Cur::E(i) => i.is_tombstone(),
                 },
                 jbytes(c.pp().packet()),
                 view_json(c.pp())
@@ -478,6 +513,7 @@ pub fn run_walk(v: &Value) -> Option<String> {
             cur = match c {
                 Cur::Q(i) => i.next().map(Cur::Q),
                 Cur::R(i) => (if incl { i.next_including_opt() } else { i.next() }).map(Cur::R),
+                Cur::E(i) => i.next().map(Cur::E),
             };
         }
     });
